@@ -23,7 +23,9 @@ for fn, idx in (("try_from_be_slice", "c"), ("try_from_le_slice", "i")):
     row("crate::bytes::<impl %s>::%s" % (U, fn), "assert:Overflow",
         "Overflow(Add:limbs[limb],Shl(*bytes[%s],Mul(byte,8)))" % idx,
         "limbs[i / 8] += byte << (8 * (i % 8)): every (limb, lane) pair is added exactly once into a zero-initialised "
-        "array, so the sum of distinct byte lanes is < 2^64 (disjoint-bits accumulation; not an interval fact)")
+        "array, so the sum of distinct byte lanes is < 2^64 (disjoint-bits accumulation; not an interval fact). Matched "
+        "by structure (an addition into a limb of a byte shifted by a multiple of 8), not by the names of the index "
+        "variables", what_re=r"Overflow\(Add:.*\[.*\],Shl\(.*,Mul\(.*,8\)\)\)")
 row("crate::bytes::<impl %s>::try_from_be_slice" % U, "assert:Overflow", "Overflow(Sub:c,1)",
     "c starts at bytes.len() and is decremented once per iteration of `while i < bytes.len()` with i incremented once: "
     "loop invariant c == len - i > 0 at the decrement (linear invariant over two variables; not an interval fact)")
@@ -62,11 +64,11 @@ for fn_, a_ in (("shift_left_small", "Shl"), ("shift_right_small", "Shr")):
     row("crate::algorithms::shift::%s" % fn_, "assert:Overflow", "Overflow(%s:*limb,amount)" % a_,
         "limb shifted by `amount`: documented precondition amount < 64 (debug_assert!(amount < 64), the sub-limb step of "
         "a shift). Accepted for the kernel as an entry point; carried to callers as the guard amount >= 64, which every "
-        "caller's intervals must refute",
-        entry_precondition=True)
+        "caller's intervals must refute. Matched by structure: an overflow-checked shift whose amount is parameter 2",
+        entry_precondition=True, what_re=r"Overflow\(%s:.*\)" % a_, requires=[{"amount_param": 2}])
     row("crate::algorithms::shift::%s" % fn_, "assert:Overflow", "Overflow(Sub:64,amount)",
         "64 - amount: same documented precondition amount < 64 (the subtraction wraps only for amount > 64)",
-        entry_precondition=True)
+        entry_precondition=True, what_re=r"Overflow\(Sub:64,.*\)", requires=[{"amount_param": 2}])
 
 if __name__ == "__main__":
     out = os.path.join(os.path.dirname(os.path.dirname(os.path.abspath(__file__))), "overflow.json")
